@@ -23,7 +23,8 @@ TARGETS = ['boltons.funcutils.wraps', 'boltons.funcutils.update_wrapper', 'bolto
            'boltons.funcutils.FunctionBuilder.remove_arg', 'boltons.funcutils.FunctionBuilder.add_arg',
            'boltons.funcutils.FunctionBuilder.get_defaults_dict', 'boltons.funcutils.FunctionBuilder.get_arg_names',
            'boltons.funcutils.inspect_formatargspec']
-BOUNDS = {
+BOUNDS = {  # annotations: first positional, *args, keyword-only, **kw and return (all or none)
+
     'quick': {'signatures': '0..3 positional-or-keyword (0..n defaults), *args, 0..2 keyword-only (any default mask), **kwargs, annotations on/off, sync/async',
               'call shapes': '0..4 positional arguments x every subset of {a, b, c, k, l, zz} as keywords',
               'modes': 'plain, injected=<each parameter>, expected=<new name with/without default>, hide_wrapped',
@@ -120,7 +121,7 @@ def make_func(npos, ndef, varargs, nkw, kwmask, varkw, annot, is_async):
             p += '=%d' % (10 + i)
         parts.append(p)
     if varargs:
-        parts.append('*args')
+        parts.append('*args' + (': int' if annot else ''))
     elif nkw:
         parts.append('*')
     for j, nm in enumerate(KWO[:nkw]):
@@ -129,7 +130,7 @@ def make_func(npos, ndef, varargs, nkw, kwmask, varkw, annot, is_async):
             p += '=%d' % (20 + j)
         parts.append(p)
     if varkw:
-        parts.append('**kw')
+        parts.append('**kw' + (': str' if annot else ''))
     ret = ' -> list' if annot else ''
     src = '%sdef target(%s)%s:\n    "doc of target"\n    return sorted(locals().items(), key=repr)\n' % ('async ' if is_async else '', ', '.join(parts), ret)
     ns = {}
@@ -216,11 +217,22 @@ def _wraps_body(sigparams, mode, target_idx, with_default):
 
         def inner(*a, **k):
             return (a, k)
-        w = wraps(f, injected=[victim])(inner)
-        sig_w = inspect.signature(w, follow_wrapped=False)
-        exp_params = [p for n, p in sig_f.parameters.items() if n != victim]
-        if list(sig_w.parameters.values()) != exp_params:
-            return fail('injected_signature', '%s removing %s: %s' % (tag, victim, sig_w))
+        # injected lists: the parameter alone; with a second real parameter; and, when **kw can absorb it, together with a
+        # name that is not a parameter at all (before and after the real one)
+        lists = [[victim]]
+        other = real[(target_idx + 1) % len(real)]
+        if other != victim:
+            lists.append([victim, other])
+        if varkw:
+            lists.extend([['token', victim], [victim, 'token']])
+        for inj in lists:
+            w = wraps(f, injected=list(inj))(inner)
+            sig_w = inspect.signature(w, follow_wrapped=False)
+            exp_params = [p for n, p in sig_f.parameters.items() if n not in inj]
+            if list(sig_w.parameters.values()) != exp_params:
+                return fail('injected_signature', '%s removing %r: %s' % (tag, inj, sig_w))
+            if sig_w.return_annotation != sig_f.return_annotation:
+                return fail('injected_return_annotation', '%s removing %r: %s' % (tag, inj, sig_w))
         return done(True, kind='injected', sig=src.splitlines()[0], victim=victim)
     # expected: a new parameter 'z'
     if is_async:
